@@ -175,7 +175,7 @@ def check_misc(case):
 
 
 core.register("C08", [
-    Facet("laws", law_cases, check_laws, n_quick=2000, shards_quick=8,
+    Facet("laws", law_cases, check_laws, n_quick=4000, shards_quick=8,
           rule=RULE),
     Facet("misc", misc_cases, check_misc, n_quick=400, shards_quick=1,
           rule="sums, conjugate, zeros and refusal of ill-typed requests"),
